@@ -90,7 +90,11 @@ Inductive case :=
 | CConc (pool : list pentry) (senders : list (list nat)) (sends : list bool)
         (limit : N)
         (owire : option (list chunk))   (* OBSERVED (scripted connection only): the bytes on the wire *)
-        (delivered : list nat) (valeq tyeq crash : bool).              (* goroutines sending on ONE connection *)
+        (delivered : list nat) (valeq tyeq crash : bool)               (* goroutines sending on ONE connection *)
+| CTypeIds (ids : list (list chunk))   (* OBSERVED: the ids RegisterMessage gave to the harness's message types,
+                                          pairwise different Go types (two of them differ in the package only) *)
+| CSeq (steps : list case).            (* cases executed one after the other in ONE fresh process
+                                          (decoding with different suites in a given order) *)
 
 (* ---- the codec table ------------------------------------------------------ *)
 
@@ -339,7 +343,17 @@ Definition model_send_fail (pb : list bytes) (items : list item) (off : N) : opt
       end
   end.
 
-Definition agree (c : case) : bool :=
+Fixpoint nodup_bytes (l : list bytes) : bool :=
+  match l with
+  | [] => true
+  | x :: r => negb (existsb (bytes_eqb x) r) && nodup_bytes r
+  end.
+
+(* type ids: the model's tid_of is injective on registered types (hypothesis
+   [registered] of the value theorems, WireProofs.type_ids_distinct) *)
+Definition typeids_ok (ids : list (list chunk)) : bool := nodup_bytes (map (expand []) ids).
+
+Fixpoint agree (c : case) : bool :=
   match c with
   | CStream lv limit ident pool items failat cuts wire sends evs delivered closed _ _ crash hung =>
       let pb := pool_bytes pool in
@@ -372,6 +386,9 @@ Definition agree (c : case) : bool :=
       nats_eqb delivered (model_local pool (pool_bytes pool) items)
   | CConc pool senders sends limit owire delivered _ _ crash =>
       negb crash && forallb (fun b => b) sends && conc_agree pool senders limit owire delivered
+  | CTypeIds ids => typeids_ok ids
+  | CSeq steps => (fix all (l : list case) : bool :=
+                     match l with [] => true | x :: r => agree x && all r end) steps
   end.
 
 Definition mismatches (l : list case) : list nat := mism_idx agree l.
@@ -448,7 +465,8 @@ Definition wire_okb (expected d : list nat) (closed : bool) : bool :=
    7 the decoder refused or altered a valid message
    8 a Send of a registered value returned an error (the harness never closes
      the sending side while it sends)
-   9 an envelope's MsgType is not the type id of the value it carries *)
+   9 an envelope's MsgType is not the type id of the value it carries
+   10 two different registered Go types have the same type id *)
 (* a stream without garbage *)
 Definition clean_clauses (cl : list icls) (d : list nat) (closed : bool) : list nat :=
   let e_all := legit_all cl in
@@ -526,7 +544,7 @@ Fixpoint drop_failed (items : list item) (sends : list bool) : list item :=
 
 Definition all_true (l : list bool) : bool := forallb (fun b => b) l.
 
-Definition check (c : case) : list nat :=
+Fixpoint check (c : case) : list nat :=
   match c with
   | CStream lv limit ident pool items failat cuts wire sends evs delivered closed valeq tyeq crash hung =>
       let pb := pool_bytes pool in
@@ -571,6 +589,9 @@ Definition check (c : case) : list nat :=
   | CConc pool senders sends _ _ delivered valeq tyeq crash =>
       clause 5 (negb crash) ++ clause 4 valeq ++ clause 9 tyeq ++ clause 8 (all_true sends) ++
       clause 1 (is_merge delivered (conc_expected pool senders))
+  | CTypeIds ids => clause 10 (typeids_ok ids)
+  | CSeq steps => (fix all (l : list case) : list nat :=
+                     match l with [] => [] | x :: r => check x ++ all r end) steps
   end.
 
 Definition violations (l : list case) : list (nat * nat) := viols check l.
